@@ -20,11 +20,12 @@ func (Engine) Name() string { return "E6-resource" }
 
 // Runs implements core.Engine.
 func (Engine) Runs(prop, tier string) int {
+	quick := map[string]int{"C17": 50000, "C18": 80000}[prop]
 	if tier == "thorough" {
-		return 2500000
+		return quick * 40
 	}
 
-	return 60000
+	return quick
 }
 
 // Describe implements core.Engine.
